@@ -47,7 +47,7 @@ def parseDescs (s : String) : Option (List Desc) :=
 def lineOf (text : Bytes) (d : Desc) : SigLine :=
   { name := d.1, hash := d.2.1, sig := match d.2.2 with | some k => symSig k text | none => [] }
 
-/-- "M:<first line>" | "W:<text>:<lines>" -/
+/-- "M:<first line>" | "W:<text>:<lines>" | "T:<text>:<lines before the malformed one>" -/
 def parseNote (s : String) : Option NoteForm :=
   match s.splitOn ":" with
   | ["M", l] => (Bytes.ofHex l).map NoteForm.malformed
@@ -55,6 +55,10 @@ def parseNote (s : String) : Option NoteForm :=
     let t ← Bytes.ofHex t
     let ds ← parseDescs ls
     pure (.wellformed { text := t, sigs := ds.map (lineOf t) })
+  | ["T", t, ls] => do
+    let t ← Bytes.ofHex t
+    let ds ← parseDescs ls
+    pure (.truncated { text := t, sigs := ds.map (lineOf t) })
   | _ => none
 
 def parseOut : String → Option Out
@@ -221,6 +225,13 @@ def onLine (st : St) (n : Nat) (l : String) : IO St := do
       let m := Merkle.checkTree node proof.reverse t th nn h
       if (res == "1") == m then return st.good s!"checkTree:{res}"
       else st.bad n s!"CheckTree({t},{nn}) impl={res} model={m}"
+    | _, _, _, _, _ => st.bad n s!"bad-line: {l.take 160}"
+  | ["cr", t, th, nn, h, proof, res] =>
+    match t.toNat?, Bytes.ofHex th, nn.toNat?, Bytes.ofHex h, parseHashes proof with
+    | some t, some th, some nn, some h, some proof =>
+      let m := Merkle.checkRecord node proof.reverse t th nn h
+      if (res == "1") == m then return st.good s!"checkRecord:{res}"
+      else st.bad n s!"CheckRecord({t},{nn}) impl={res} model={m}"
     | _, _, _, _, _ => st.bad n s!"bad-line: {l.take 160}"
   | [] => return st
   | _ => st.bad n s!"bad-line: {l.take 160}"
